@@ -220,6 +220,9 @@ fn run_one_policy(s: &Scn12, pos: Option<(usize, &Corruption)>, cov: &mut Cov, v
     let acts = positions(&s.base);
     // request poisoned by a rejected response: not touched again on either side
     let mut poisoned: Option<ReqKey> = None;
+    // ... by this side; at the very end the shell tries once more under the same id (a corrected
+    // response, or more garbage): whatever the bridge makes of it, it must return
+    let mut retry: Option<(u32, Vec<u8>)> = None;
     for (i, act) in acts.iter().enumerate() {
         let (sent, valid) = match act {
             Action::Event(ev) => (Sent::Event(ev.clone()), encode(wire, ev)),
@@ -345,6 +348,9 @@ fn run_one_policy(s: &Scn12, pos: Option<(usize, &Corruption)>, cov: &mut Cov, v
                 let was_many = registry_before.as_ref().is_some_and(|r| r.iter().any(|e| Some(e.0) == id && e.1 == crux_core::verif::EntryKind::Many));
                 if !was_many {
                     poisoned = Some(*key);
+                    if let Some(id) = id {
+                        retry = Some((id, valid.clone()));
+                    }
                     a.ids.remove(key);
                     if drop_on_reject {
                         b.drop_req(*key);
@@ -385,6 +391,21 @@ fn run_one_policy(s: &Scn12, pos: Option<(usize, &Corruption)>, cov: &mut Cov, v
         cov.bump("sim_steps");
         if std::env::var("VERIF_DEBUG").is_ok() {
             eprintln!("pos {i}: decodes={decodes} result_ok={} ids={:?} effects={:?}", result.is_ok(), a.ids, oa.effects);
+        }
+    }
+    if let Some((id, bytes)) = retry {
+        cov.bump("fault:second_response_after_rejected_one");
+        for attempt in [bytes.clone(), vec![0xff], bytes] {
+            if let Err((loc, msg)) = catch(|| a.bridge.handle_response(id, &attempt)) {
+                return Err(viol(&format!("panic:{loc}"), format!("a further response under the id of a one-shot whose first response had been rejected: {msg}")));
+            }
+        }
+        // and the bridge is still usable
+        let noop = encode(wire, &Event::Noop);
+        match catch(|| a.bridge.process_event(&noop)) {
+            Err((loc, msg)) => return Err(viol(&format!("panic:{loc}"), format!("an event after that: {msg}"))),
+            Ok(Err(e)) => return Err(viol("valid_input_rejected", format!("an event after a retried response: {e}"))),
+            Ok(Ok(_)) => {}
         }
     }
     Ok(())
